@@ -751,10 +751,10 @@ Qed.
 (* ------------------------------------------------------------------------ *)
 (* 9. head *)
 
-Lemma head_spec s a t c :
-  Inv s a -> c < two128 -> has_nul t = false -> head s t c = a_head a t c.
+Lemma head_unguarded_spec s a t c :
+  Inv s a -> c < two128 -> has_nul t = false -> head_unguarded s t c = a_head a t c.
 Proof.
-  intros HI Hc Ht. unfold head, a_head.
+  intros HI Hc Ht. unfold head_unguarded, a_head.
   transitivity (find_map (get s)
                   (map (fun e : bytes * unit => of_be (last16 (fst e)))
                        (rev (kv_prefix (tprefix c t) (s_itopic s))))).
@@ -773,11 +773,32 @@ Proof.
     rewrite last_last. reflexivity.
 Qed.
 
+(* no live frame has a NUL in its topic: the spec answers None for such a query *)
+Lemma a_head_nul a t c : Forall frame_ok (a_live a) -> has_nul t = true -> a_head a t c = None.
+Proof.
+  intros Hok Ht. unfold a_head.
+  assert (E : filter (same_topic c t) (a_live a) = []).
+  { induction (a_live a) as [|g l IH]; [reflexivity|].
+    inversion Hok as [|? ? Hg Hl]; subst. cbn [filter].
+    destruct (same_topic c t g) eqn:Es.
+    - apply same_topic_true in Es. destruct Es as [_ Et].
+      destruct Hg as (_ & _ & Hn). rewrite Et in Hn. congruence.
+    - apply IH; exact Hl. }
+  rewrite E. reflexivity.
+Qed.
+
+Lemma head_spec s a t c :
+  Inv s a -> c < two128 -> head s t c = a_head a t c.
+Proof.
+  intros HI Hc. unfold head. destruct (has_nul t) eqn:Ht.
+  - symmetry. apply a_head_nul; [exact (inv_ok _ _ HI)|exact Ht].
+  - apply head_unguarded_spec; assumption.
+Qed.
+
 Theorem refines_head : forall t c, refines_op (OHead t c).
 Proof.
   intros t c s a HI Hh. cbn [hyp_ok] in Hh.
-  apply andb_true_iff in Hh. destruct Hh as [Hc Hn].
-  unfold id_ok in Hc. apply N.ltb_lt in Hc. apply negb_true_iff in Hn.
+  unfold id_ok in Hh. apply N.ltb_lt in Hh.
   cbn [step a_step fst snd]. split; [|exact HI].
   f_equal. apply head_spec; assumption.
 Qed.
